@@ -222,7 +222,9 @@ impl Network for AdvNet {
             let len = packet.payload.len();
             let act = self.decide(dir, idx, now, len);
             let first = packet.payload.first().copied().unwrap_or(0);
-            emit(json!({"ev": "dg", "dir": dir, "idx": idx, "len": len, "act": act, "first": first, "src": src.to_string(), "dst": dst.to_string(), "hash": fnv(&packet.payload)}));
+            let (from, to) = if dir == "c2s" { ("c", "s") } else { ("s", "c") };
+            let (dcid, scid) = crate::common::datagram_ids(&packet.payload, from, to, true);
+            emit(json!({"ev": "dg", "dir": dir, "idx": idx, "len": len, "act": act, "first": first, "dcid": dcid, "scid": scid, "src": src.to_string(), "dst": dst.to_string(), "hash": fnv(&packet.payload)}));
             let path_delay = {
                 let ca = self.client_addrs.lock().unwrap();
                 let client_side = if dir == "c2s" { src } else { dst };
